@@ -13,7 +13,7 @@ EXPLANATION = (
 )
 TRUSTED = _c02.TRUSTED
 ASSUMPTIONS = _c02.ASSUMPTIONS
-BUDGET = {'quick': dict(ob_deadline_s=100, total_s=160), 'thorough': dict(ob_deadline_s=600, total_s=1500)}
+BUDGET = {'quick': dict(ob_deadline_s=100, total_s=300), 'thorough': dict(ob_deadline_s=600, total_s=1500)}
 BOUNDS = {'quick': 'shape grids of C02/C06 restricted to rounded calls (prec > 0), asserting bc <= prec; wrapper obligations with kernel stubs'}
 
 
